@@ -332,6 +332,23 @@ pub struct Ctx {
 
 impl Ctx {
     pub fn new() -> Self {
+        Self::with_default_ctor(false)
+    }
+
+    /// `via_default`: the 256-colour encoder is obtained through `TTYEncoder::default()` instead
+    /// of `TTYEncoder::new(caps)` (the default capabilities ARE 256 colours, no glyphs, no kitty
+    /// keyboard: both constructions denote the same encoder and must reduce colours alike)
+    pub fn with_default_ctor(via_default: bool) -> Self {
+        let dc = TerminalCaps::default();
+        let same = matches!(dc.depth, ColorDepth::EightBit) && !dc.glyphs && !dc.kitty_keyboard;
+        let mut ctx = Self::plain();
+        if via_default && same {
+            ctx.encs[Depth::EightBit.idx()] = TTYEncoder::default();
+        }
+        ctx
+    }
+
+    fn plain() -> Self {
         let mk = |d: Depth| {
             TTYEncoder::new(TerminalCaps {
                 depth: d.lib(),
@@ -632,7 +649,8 @@ fn fail_with_case(c: &Case, f: Fail) -> Fail {
 
 pub fn check_case(c: &Case) -> Outcome {
     let t = tables();
-    let mut ctx = Ctx::new();
+    // every other case (by a function of the case) takes its 256-colour encoder from Default
+    let mut ctx = Ctx::with_default_ctor((c.color[0] ^ c.color[1] ^ c.color[2] ^ c.attrs) & 1 == 1);
     if let Some((alpha, same_rgb)) = c.prelude {
         // earlier use of the same encoder: a translucent colour in every colour slot
         let rgb = if same_rgb { c.color } else { c.other };
@@ -812,7 +830,8 @@ impl Acc {
 /// all (slot, depth) observations of the colours `ord .. ord+len` of `colour_at`
 fn sweep_chunk(colour_at: &(dyn Fn(u64) -> [u8; 3] + Sync), start: u64, end: u64) -> Acc {
     let t = tables();
-    let mut ctx = Ctx::new();
+    // sweeps: odd chunks take the 256-colour encoder from `TTYEncoder::default()`
+    let mut ctx = Ctx::with_default_ctor((start / 4096) % 2 == 1 || start % 2 == 1);
     let mut acc = Acc::new();
     for ord in start..end {
         let color = colour_at(ord);
@@ -1156,6 +1175,7 @@ impl Property for C20 {
         vec![
             "metric: Euclidean distance between the r,g,b components of LinColor::from(RGBA) (public rasterize conversion, f32) evaluated in f64; opaque colours, so premultiplied = straight and the alpha term is 0".into(),
             format!("tolerance tau = {TAU:e} on d(chosen) - d(optimum): the library compares against tables rounded to 6 decimals (entry error <= 5e-7, i.e. <= 1e-6 on a distance) in f32 arithmetic, so its choice can exceed the optimum by at most ~3e-6; tau leaves a factor ~7. Measured maximum over all 2^24 colours: see samples (d256_max_excess_over_optimum)"),
+            "half of the generated cases and half of the sweep chunks obtain their 256-colour encoder from TTYEncoder::default() instead of TTYEncoder::new(caps): the default capabilities are exactly 256 colours / no glyphs / no kitty keyboard (checked at run time), so both denote the same encoder".into(),
             "xterm palette: indices 16..231 = 6x6x6 cube on levels 0,95,135,175,215,255 (16+36r+6g+b), 232..255 = greys 8+10i; indices 0..15 and the basic colours are never acceptable at 256-colour depth".into(),
             "luma = 0.2126 R + 0.7152 G + 0.0722 B on the gamma-encoded channel values / 255 — the definition of rasterize::Color::luma, which the library uses, rewritten independently in f64 (NOT linear-light luminance)".into(),
             format!("grey levels in increasing order 30<90<37<97 (bg 40<100<47<107) stand for luminances 0, 1/3, 2/3, 1; the boundary between two neighbouring levels may lie anywhere between the midpoint of the exact thirds (1/6, 1/2, 5/6) and the midpoint of the two-digit levels 0.33/0.66 the library uses (0.165, 0.495, 0.83), widened by {BAND} for f32 rounding; inside those three narrow bands either neighbour is accepted, outside them the nearer level is required; monotonicity is required only between colours whose f64 lumas differ by more than {LUMA_EPS:e} (f32 evaluation error)"),
